@@ -13,6 +13,7 @@ import (
 func init() { register("C19", checkC19) }
 
 func checkC19(p *core.Program, r *core.Report) {
+	ensureCallSites(p)
 	const R1 = "C19.R1 reannounce-reads-current-data"
 	const R2 = "C19.R2 manual-shutdown-gate-atomic"
 	const R3 = "C19.R3 bookkeeping"
